@@ -86,9 +86,15 @@ func runC16(c *eng.Ctx, tier string) {
 		return false
 	}
 	nCalls := 0
+	// (the routine may test the policy itself, before anything else: then
+	// every request it makes lies past that test)
+	selfGated := allowTrue(do)
+	if attempt != nil {
+		selfGated = allowTrue(attempt)
+	}
 	for _, e := range g.CallersOf(lk) {
 		nCalls++
-		c.Check(allowTrue(e.Site), "R-C16-1", e.Caller, e.Site.Pos(), "call of the lookup routine in "+eng.FName(e.Caller), "edge-dominated by Store.allowLookup == true", "holding here: "+factsStr(factsDeep(e.Site)))
+		c.Check(selfGated || allowTrue(e.Site), "R-C16-1", e.Caller, e.Site.Pos(), "call of the lookup routine in "+eng.FName(e.Caller), "edge-dominated by Store.allowLookup == true (at the call, or at the head of the routine before its single-flight call)", "holding here: "+factsStr(factsDeep(e.Site)))
 	}
 	if nCalls == 0 {
 		c.Undecided("R-C16-1", lk, lk.Pos(), "callers of the lookup routine", "none")
@@ -411,6 +417,57 @@ func c16Deadline(c *eng.Ctx, lk, lit *ssa.Function, fetch *ssa.Call) {
 	}
 	for _, lf := range leaves {
 		site := "context of the lookup fetch: " + eng.ValStr(lf.Val)
+		// the choice may be made by a helper returning (context, cancel)
+		if hc, idx := eng.TupleCall(lf.Val); hc != nil && idx == 0 {
+			if h := eng.Callee(&hc.Call); eng.IsHelper(lit, h) && len(h.Params) == 1 && len(hc.Call.Args) == 1 && h.Signature.Results().Len() == 2 && eng.OriginX(hc.Call.Args[0]) == eng.OriginX(ctxP) {
+				okH := len(eng.Returns(h)) > 0
+				why := ""
+				for _, r := range eng.Returns(h) {
+					rv := eng.RetVals(r)
+					switch {
+					case eng.Origin(rv[0]) == ssa.Value(h.Params[0]):
+						has := false
+						for _, cond := range eng.FactsAt(r) {
+							if bv, truth, isB := cond.Bool(); isB && truth {
+								if ex, isEx := eng.Origin(bv).(*ssa.Extract); isEx && ex.Index == 1 {
+									if dc, isC := ex.Tuple.(*ssa.Call); isC && dc.Call.IsInvoke() && dc.Call.Method.Name() == "Deadline" && eng.Origin(dc.Call.Value) == ssa.Value(h.Params[0]) {
+										has = true
+									}
+								}
+							}
+						}
+						if !has {
+							okH, why = false, "the caller's context is returned as it is where it was not found to have a deadline"
+						}
+					default:
+						tc, ti := eng.TupleCall(rv[0])
+						d := int64(0)
+						isK := false
+						if tc != nil && len(tc.Call.Args) == 2 {
+							d, isK = eng.ConstInt(tc.Call.Args[1])
+						}
+						if tc == nil || ti != 0 || !eng.CalleeIs(&tc.Call, "context", "WithTimeout") || !isK || time.Duration(d) <= 0 || time.Duration(d) > 5*time.Minute || eng.Origin(tc.Call.Args[0]) != ssa.Value(h.Params[0]) {
+							okH, why = false, "returns "+eng.ValStr(rv[0])
+						} else if c2, i2 := eng.TupleCall(rv[1]); c2 != tc || i2 != 1 {
+							okH, why = false, "the cancel function returned is not that of the derived context"
+						}
+					}
+				}
+				// the caller defers the cancel function it was handed
+				deferred := false
+				for _, r := range *hc.Referrers() {
+					if ex2, ok := r.(*ssa.Extract); ok && ex2.Index == 1 {
+						for _, rr := range *ex2.Referrers() {
+							if df, ok := rr.(*ssa.Defer); ok && df.Call.Value == ssa.Value(ex2) {
+								deferred = true
+							}
+						}
+					}
+				}
+				c.Check(okH && deferred, "R-C16-4", lit, hc.Pos(), site, "the caller's context where it has a deadline, else context.WithTimeout(caller's ctx, constant d <= 5m), the cancel function deferred", why)
+				continue
+			}
+		}
 		v := eng.OriginX(lf.Val)
 		if v == eng.OriginX(ctxP) {
 			// only on the ok edge of ctx.Deadline()
@@ -546,7 +603,12 @@ func c16Retry(c *eng.Ctx, lk *ssa.Function, do *ssa.Call, lit *ssa.Function, att
 		if eng.IsNilConst(eng.Origin(rv[1])) {
 			continue
 		}
-		c.Check(eng.Same(rv[1], derr), "R-C16-7", lk, r.Pos(), "error result "+eng.InstrStr(r), "the error of the shared lookup is returned to its caller", "returns "+eng.ValStr(rv[1]))
+		// (a refusal before any attempt -- lookups disabled -- is its own error)
+		before := false
+		if hitB, _ := eng.Search(lk, do, nil, nil, func(x ssa.Instruction) bool { return x == ssa.Instruction(r) }); hitB == nil && !eng.InstrDominates(do, r) {
+			before = true
+		}
+		c.Check(eng.Same(rv[1], derr) || before, "R-C16-7", lk, r.Pos(), "error result "+eng.InstrStr(r), "the error of the shared lookup is returned to its caller", "returns "+eng.ValStr(rv[1]))
 	}
 	// per back edge: R-C16-5 and R-C16-6
 	witness := func(v ssa.Value) bool {
